@@ -961,6 +961,21 @@ where
         D: Deserializer<'de>,
     {
         let deser_map: HashMap<String, K> = HashMap::deserialize(deserializer)?;
+
+        // The interner hands out the keys `0..len` and both it and the views made
+        // from it rely on that, so anything else can't have come from an interner
+        let mut seen_keys = vec![false; deser_map.len()];
+        for key in deser_map.values() {
+            match seen_keys.get_mut(key.into_usize()) {
+                Some(seen) if !*seen => *seen = true,
+                _ => {
+                    return Err(serde::de::Error::custom(
+                        "the keys of a ThreadedRodeo must be unique and contiguous",
+                    ))
+                }
+            }
+        }
+
         let capacity = {
             let total_bytes = deser_map.keys().map(|s| s.len()).sum::<usize>();
             let total_bytes =
